@@ -181,10 +181,10 @@ def tie_stage(spec, data, tier, seed):
             st2 = fuzzlib.compare_batch(L, reg2, [(l, e) for (_, _, l, e) in d2["pairs"].get(name, [])])
             remaining = None
             if st2.bad and st2.calls > 0 and getattr(L, "HANDLER", None) in ("full_day", "water_day"):
-                # a whole-day replay still disagrees under the shared libm.  Python's `x ** 2` (C `pow`) and the
-                # model's `x * x` differ by one ulp for ~0.1 % of arguments, and no patch reaches the `**` operator:
-                # a day whose sub-process replays (fed Python's own inputs) all agree within the tolerance, at least
-                # one of them not bit for bit, is a sub-ulp difference amplified through a branch — an ulp tie too
+                # a whole-day replay still disagrees under the shared libm (safety net: sources of one-ulp noise
+                # the shared libm does not reach — the `**` operator, SIMD paths, `-0.0`): a day whose sub-process
+                # replays (fed Python's own inputs) all agree within the tolerance, at least one of them not bit
+                # for bit, is a sub-ulp difference amplified through a branch — an ulp tie too
                 remaining = _amplified_ulp_days(L, name, d2, reg2, encs)
             if (st2.bad == 0 and st2.calls > 0) or remaining == []:
                 d["ulp_ties"] = st.bad
